@@ -197,6 +197,9 @@ Definition holder_acc (s : state) (i t : nat) : bool :=
    its involving instances (exported and imported TABLES do; exported/imported GLOBALS have no such list) *)
 Definition involvedb (s : state) (i h : nat) : bool :=
   match o_owner (getd s h) with None => memb i (o_vis (getd s h)) | Some _ => true end.
+(* h is a shared holder that lists i among its involving instances *)
+Definition sharedb (s : state) (i h : nat) : bool :=
+  match o_owner (getd s h) with None => memb i (o_vis (getd s h)) | Some _ => false end.
 Definition holder_ok (s : state) (i t : nat) : bool := holder_acc s i t && involvedb s i (holder_of s i t).
 Definition open (s : state) (i : nat) : bool := negb (o_closed (getd s i)).
 
@@ -219,6 +222,7 @@ Inductive op :=
 | OSetRef (i t k f : nat)            (* i: table.set/global.set of ref.func f into its holder t *)
 | OCopy (i ts ks td kd : nat)        (* i: table.get/global.get from holder ts, set into holder td *)
 | OClear (i t k : nat)
+| OGrowRef (i t f : nat)             (* i: table.grow of its table t by one slot initialised with ref.func f *)
 | OPassParam (i f j t k : nat)       (* record f of i reaches j as a parameter/result; j stores it in its holder t *)
 | OCallExport (i f : nat)
 | OCallIndirect (i t k : nat)
@@ -299,6 +303,9 @@ Definition step (s : state) (o : op) : state :=
       if holder_acc s i ts && holder_acc s i td
       then set_slot s (holder_of s i td) kd (slot s (holder_of s i ts) ks) else s
   | OClear i t k => if holder_acc s i t then set_slot s (holder_of s i t) k None else s
+  | OGrowRef i t f =>
+      if holder_acc s i t && rec_ok s i f && kind_eqb (o_kind (getd s (holder_of s i t))) KTable
+      then upd_obj s (holder_of s i t) (fun o => set_slots (o_slots o ++ [Some (rec_of s i f)]) o) else s
   | OPassParam i f j t k =>
       if rec_ok s i f && holder_acc s j t
       then set_slot s (holder_of s j t) k (Some (rec_of s i f)) else s
@@ -330,18 +337,22 @@ Definition run (s : state) (ops : list op) : state := fold_left step ops s.
        lists the instance in involvingModuleInstances);
      - OCopy: table.get/global.get from any holder of the instance, stored into a holder that tracks it;
      - OClear;
-     - OPassParam (parameter/result hand-over): only when the receiving holder tracks the receiver AND the
+     - OGrowRef: table.grow with ref.func as initial value, like OSetRef;
+     - OPassParam (parameter/result hand-over): when the receiving holder tracks the receiver AND the
        receiver imports a function defined by the sender (its module engine visibly points to the sender's)
-       or sender = receiver.
+       or sender = receiver; or when the receiving holder is a shared table that lists the SENDER among its
+       involving instances (the sender imports or exports that very table).
    Not tracked: a hand-over to an unrelated instance (F08), and ANY store into an exported/imported GLOBAL
    (F08b): GlobalInstance has no involvingModuleInstances. *)
 Definition tracked (s : state) (o : op) : bool :=
   match o with
   | OSetRef i t k f => negb (holder_acc s i t && rec_ok s i f) || involvedb s i (holder_of s i t)
   | OCopy i ts ks td kd => negb (holder_acc s i ts && holder_acc s i td) || involvedb s i (holder_of s i td)
+  | OGrowRef i t f => negb (holder_acc s i t && rec_ok s i f) || involvedb s i (holder_of s i t)
   | OPassParam i f j t k =>
       negb (rec_ok s i f && holder_acc s j t)
       || (involvedb s j (holder_of s j t) && (Nat.eqb i j || memb (me_of s i) (o_vis (getd s (me_of s j)))))
+      || sharedb s i (holder_of s j t)
   | _ => true
   end.
 
@@ -382,7 +393,7 @@ Record mspec := mkM {
 Inductive hop :=
 | HCompile (m : nat) | HInst (m : nat)
 | HCallExport (m f : nat) | HCallInd (m t k : nat)
-| HSetRef (m t k f : nat) | HCopy (m ts ks td kd : nat) | HClear (m t k : nat)
+| HSetRef (m t k f : nat) | HCopy (m ts ks td kd : nat) | HClear (m t k : nat) | HGrow (m t f : nat)
 | HPass (m f m2 t k : nat)
 | HEnter (m : nat) | HLeaveRec (m f : nat) | HLeaveInd (m t k : nat)   (* continuation after the host function returns *)
 | HCloseMod (m : nat) | HCloseCompiled (m : nat) | HCloseCache | HCloseRuntime
@@ -446,6 +457,7 @@ Definition hstep (mods : list mspec) (h : hstate) (o : hop) : hstate * Z :=
   | HSetRef m t k f => on_inst m (fun i => (upd_st (step s (OSetRef i t k f)), 0%Z))
   | HCopy m ts ks td kd => on_inst m (fun i => (upd_st (step s (OCopy i ts ks td kd)), 0%Z))
   | HClear m t k => on_inst m (fun i => (upd_st (step s (OClear i t k)), 0%Z))
+  | HGrow m t f => on_inst m (fun i => (upd_st (step s (OGrowRef i t f)), 0%Z))
   | HPass m f m2 t k =>
       on_inst m (fun i => match lookup (nth m (h_bind h) []) m2 with
                           | Some j => (upd_st (step s (OPassParam i f j t k)), 0%Z)
